@@ -82,7 +82,7 @@ PROPS = {
     },
     "C09": {
         "engines": ["S"],
-        "bounds": ["a stub TimeZone with ONE arbitrary transition: UTC instant, old and new offset all symbolic (whole minutes, |offset| <= 14h, jump <= 65 min quick / 180 min thorough; monotonicity and evaluation equivalence: jump <= 12 / 65 min); naive local times on every minute of the 3 days around the transition",
+        "bounds": ["a stub TimeZone with ONE arbitrary transition: UTC instant, old and new offset all symbolic (whole minutes, |offset| <= 14h, gap / fold <= 65 min (180 thorough); every skipped minute of a 1500 min gap (zones that skipped a whole day); monotonicity and evaluation equivalence: jump <= 12 / 65 min); naive local times on every minute of the 3 days around the transition",
                    "evaluation equivalence (state, iter_range over one day) on 2 (3) expressions with concrete spans"],
         "outside_bounds": ["real IANA tables (chrono-tz data), zones with several transitions inside one query window, offsets with seconds, sub-minute naive times in gaps"],
         "stubs": ["chrono::TimeZone implemented by a stub that returns None / Single / Ambiguous(earliest, latest) per chrono's documented contract"],
@@ -124,7 +124,7 @@ PROPS = {
     },
     "C16": {
         "engines": ["S"],
-        "bounds": ["bound B symbolic in 1..=5 days (21 thorough) with second granularity, query instant 2024-06-12 + symbolic second, expression family of C02; the exact answer is taken from the unbounded evaluator on a window of max(B) + 2 days"],
+        "bounds": ["bound B symbolic in 1..=5 days (9 thorough) with second granularity, query instant 2024-06-12 + symbolic second, expression family of C02; the exact answer is taken from the unbounded evaluator on a window of max(B) + 2 days"],
         "outside_bounds": ["bounds of months or years (each day-step forks on B)"],
         "stubs": [],
         "assumptions": [S_TWIN, S_SHIM, S_REPLAY],
